@@ -18,17 +18,18 @@ TI_CFG = os.path.join(SPEC, 'Trace_MemHdrImpl.cfg')
 
 def build(ctx):
     """mem_hdr_test of /repo/test-suite links stmem.o and mem_node.o with libmem, libdebug, comm/libminimal, libbase,
-    libmiscutil and the test-suite stubs; the same list is compiled here from the working tree (ASan+UBSan), fatal*()
-    provided by the driver (they end the history)."""
+    libmiscutil and the test-suite stubs; the same list is compiled here from the working tree (ASan+UBSan), with the
+    real time/libtime.la instead of its stub (xassert() logs a timestamp before abort()) and fatal*() provided by the
+    driver (they end the history)."""
     flags = vlib.BASE_FLAGS + vlib.SAN_FLAGS
     inc = ['-I', ucheck.HARN] + vlib.repo_includes([REPO + '/test-suite'])
     srcs = [os.path.join(ucheck.HARN, 'u_memhdr.cc'), os.path.join(ucheck.HARN, 'uhelp.cc')] + [os.path.join(REPO, p) for p in (
         'src/stmem.cc', 'src/mem_node.cc', 'test-suite/test_tools.cc', 'src/tests/stub_cbdata.cc', 'src/tests/stub_MemBuf.cc',
-        'src/tests/stub_SBuf.cc', 'src/tests/stub_tools.cc', 'src/tests/stub_libtime.cc', 'src/tests/stub_event.cc',
+        'src/tests/stub_SBuf.cc', 'src/tests/stub_tools.cc', 'src/tests/stub_event.cc',
         'src/tests/stub_libip.cc', 'src/tests/stub_HelperChildConfig.cc')]
     objs = vlib.compile_many(srcs, flags, inc)
     archives = []
-    for la in ('src/mem/libmem.la', 'src/debug/libdebug.la', 'src/comm/libminimal.la', 'src/base/libbase.la', 'lib/libmiscutil.la',
+    for la in ('src/mem/libmem.la', 'src/debug/libdebug.la', 'src/time/libtime.la', 'src/comm/libminimal.la', 'src/base/libbase.la', 'lib/libmiscutil.la',
                'compat/libcompatsquid.la'):
         archives.append(vlib.archive(re.sub(r'\W', '_', la), vlib.compile_many(ucheck.lib_sources(la), flags, inc)))
     return vlib.link('u_memhdr', objs, archives, ['-fsanitize=address,undefined', '-rdynamic'], ucheck.SYSLIBS)
